@@ -30,6 +30,7 @@ const (
 )
 
 type propCfg struct {
+	Extra       []string // further engines that serve the same property (their runs are added)
 	Engine      string
 	GoBin       string // "" = default go; "go1.26.8" for the synctest engine
 	TestPkg     string // non-empty: engine is a `go test -c` binary of this /repo package (in-package drivers)
@@ -82,9 +83,13 @@ type workerOut struct {
 type knownFinding struct {
 	Property  string `json:"property"`
 	Signature string `json:"signature"`
-	Status    string `json:"status"` // known | fixed
-	Commit    string `json:"commit,omitempty"`
-	What      string `json:"what"`
+	// Contains, if set instead of Signature, matches every signature of the
+	// property that carries this cause label (the oracle's classifier puts
+	// exactly one cause label into a signature).
+	Contains string `json:"contains,omitempty"`
+	Status   string `json:"status"` // known | fixed
+	Commit   string `json:"commit,omitempty"`
+	What     string `json:"what"`
 }
 
 func die(code int, format string, a ...any) {
@@ -148,7 +153,10 @@ func run(dir string, env []string, name string, args ...string) ([]byte, error) 
 }
 
 // prepare instruments and builds; returns the engine binary path.
-func prepare(pc *propCfg) string {
+func prepare(pc0 *propCfg, engineName string) string {
+	pcCopy := *pc0
+	pcCopy.Engine = engineName
+	pc := &pcCopy
 	key := treeHash()
 	root := cacheRoot()
 	dir := filepath.Join(root, key)
@@ -181,7 +189,10 @@ func prepare(pc *propCfg) string {
 		os.RemoveAll(gen)
 		args := []string{"-repo", repoDir, "-out", gen, "-overlay", filepath.Join(verifDir, "overlay"),
 			"-pkgs", "./pkg/...,./cmd/plugins/...", "-subst", filepath.Join(verifDir, "verifgen", "subst.json"),
-			"-sync", "./pkg/resmgr,./pkg/resmgr/cache"}
+			"-sync", "./pkg/resmgr,./pkg/resmgr/cache",
+			"-transplant", "cmd/plugins/memory-qos/main.go:" + verifDir + "/engines/annsim/memqos/plugin_gen.go:memqos," +
+				"cmd/plugins/memtierd/main.go:" + verifDir + "/engines/annsim/memtierd/plugin_gen.go:memtierd," +
+				"cmd/plugins/sgx-epc/sgx-epc.go:" + verifDir + "/engines/annsim/sgxepc/plugin_gen.go:sgxepc"}
 		if out, err := run(verifDir, env, vg, args...); err != nil {
 			die(2, "verifgen failed (instrumentation trouble, not a verdict): %v\n%s", err, out)
 		}
@@ -236,6 +247,7 @@ func prepare(pc *propCfg) string {
 }
 
 type batch struct {
+	bin     string
 	faults  bool
 	results []*runResult
 	replays map[int]json.RawMessage // run index -> replay
@@ -361,9 +373,19 @@ func loadKnown() []knownFinding {
 	return k
 }
 
+func matchOne(e *knownFinding, prop, sig string) bool {
+	if e.Status != "known" || e.Property != prop {
+		return false
+	}
+	if e.Contains != "" {
+		return strings.Contains(sig, e.Contains)
+	}
+	return e.Signature == sig
+}
+
 func matchKnown(k []knownFinding, prop, sig string) *knownFinding {
 	for i := range k {
-		if k[i].Status == "known" && k[i].Property == prop && k[i].Signature == sig {
+		if matchOne(&k[i], prop, sig) {
 			return &k[i]
 		}
 	}
@@ -373,7 +395,7 @@ func matchKnown(k []knownFinding, prop, sig string) *knownFinding {
 	if rest := strings.TrimPrefix(sig, prop+" "); rest != sig && len(rest) > 4 && rest[0] == 'C' && rest[3] == ' ' {
 		origin := rest[:3]
 		for i := range k {
-			if k[i].Status == "known" && k[i].Property == origin && k[i].Signature == origin+" "+rest[4:] {
+			if matchOne(&k[i], origin, origin+" "+rest[4:]) {
 				return &k[i]
 			}
 		}
@@ -419,10 +441,24 @@ func main() {
 		seed = v
 	}
 	start := time.Now()
-	bin := prepare(pc)
+	engines := append([]string{pc.Engine}, pc.Extra...)
+	bins := map[string]string{}
+	for _, e := range engines {
+		bins[e] = prepare(pc, e)
+	}
+	bin := bins[pc.Engine]
 	known := loadKnown()
 
 	if *replay != "" {
+		// the replay file names its engine
+		if b, err := os.ReadFile(*replay); err == nil {
+			var hdr struct {
+				Engine string `json:"engine"`
+			}
+			if json.Unmarshal(b, &hdr) == nil && bins[hdr.Engine] != "" {
+				bin = bins[hdr.Engine]
+			}
+		}
 		os.Exit(doReplay(bin, prop, *replay, known))
 	}
 
@@ -456,9 +492,14 @@ func main() {
 	}
 	var batches []*batch
 	runStart := time.Now()
-	for _, fm := range modes {
-		per := time.Duration(secs) * time.Second / time.Duration(len(modes))
-		batches = append(batches, runBatch(bin, prop, *tier, seed, fm, runs/len(modes), per, scratch))
+	nb := len(modes) * len(engines)
+	for _, e := range engines {
+		for _, fm := range modes {
+			per := time.Duration(secs) * time.Second / time.Duration(nb)
+			b := runBatch(bins[e], prop, *tier, seed, fm, runs/nb, per, scratch)
+			b.bin = bins[e]
+			batches = append(batches, b)
+		}
 	}
 	runWall := time.Since(runStart).Seconds()
 
@@ -570,9 +611,12 @@ func main() {
 			continue
 		}
 		// make sure the replay records this signature
-		var rep map[string]any
+		// raw fields are kept verbatim: run seeds use all 64 bits and must
+		// not pass through float64
+		var rep map[string]json.RawMessage
 		json.Unmarshal(rp, &rep)
-		rep["violation"] = v
+		vb, _ := json.Marshal(v)
+		rep["violation"] = vb
 		rpb, _ := json.MarshalIndent(rep, "", " ")
 		dir := filepath.Join(verifDir, "replays", prop)
 		os.MkdirAll(dir, 0o755)
@@ -583,13 +627,13 @@ func main() {
 		// minimise (same process class, new process)
 		if minimised < 4 {
 			minimised++
-			mcmd := exec.Command(bin, "-minimise", path, "-o", path, "-budget", "45s")
+			mcmd := exec.Command(b.bin, "-minimise", path, "-o", path, "-budget", "45s")
 			mcmd.Stderr = io.Discard
 			mcmd.Stdout = io.Discard
 			mcmd.Run()
 		}
 		// re-verify in a fresh process
-		rc, out := replayOnce(bin, path)
+		rc, out := replayOnce(b.bin, path)
 		switch rc {
 		case 3:
 			nviol++
@@ -630,7 +674,12 @@ func main() {
 
 	// ---- evidence
 	wall := time.Since(start).Seconds()
-	real, stub := components(bin)
+	var real, stub []string
+	for _, e := range engines {
+		r2, s2 := components(bins[e])
+		real = append(real, r2...)
+		stub = append(stub, s2...)
+	}
 	cov := map[string]any{
 		"evaluations":               a.runs,
 		"distinct_nontrivial":       len(a.nontrivStates),
